@@ -276,6 +276,10 @@ def _consumes(loop: ast.While, fn=None, tree=None):
             a0 = v0.value.args[0]
             if (isinstance(a0, ast.Constant) and isinstance(a0.value, int) and a0.value >= 1) or (isinstance(a0, ast.Attribute) and a0.attr == "size"):
                 return True, f"every iteration draws {ast.unparse(a0)} byte(s) from the stream with readexactly (or ends at the end of the stream)"
+        # ... or delegates to the stream decoder of a message (X.read(reader)), which reads at least a header
+        if isinstance(v0, ast.Await) and isinstance(v0.value, ast.Call) and isinstance(v0.value.func, ast.Attribute) \
+                and v0.value.func.attr == "read" and len(v0.value.args) == 1 and "reader" in ast.unparse(v0.value.args[0]):
+            return True, f"every iteration decodes one message from the stream with {ast.unparse(v0.value.func)} (at least a header is consumed, or the stream ends)"
         if any(isinstance(x, ast.Continue) for x in ast.walk(st)) and best is None and not isinstance(st, ast.Assign):
             # a `continue` before the consuming statement would skip it
             return False, "an iteration can `continue` before the buffer is consumed"
